@@ -1,6 +1,7 @@
 package props
 
 import (
+	"bytes"
 	"encoding/json"
 	"fmt"
 	"strings"
@@ -10,7 +11,10 @@ import (
 	"github.com/ipfs/go-graphsync"
 	gsmsg "github.com/ipfs/go-graphsync/message"
 	"github.com/ipfs/go-graphsync/zzverif/vsched"
+	dagpb "github.com/ipld/go-codec-dagpb"
 	"github.com/ipld/go-ipld-prime"
+	"github.com/ipld/go-ipld-prime/datamodel"
+	"github.com/ipld/go-ipld-prime/fluent/qp"
 	cidlink "github.com/ipld/go-ipld-prime/linking/cid"
 	"github.com/libp2p/go-libp2p/core/peer"
 
@@ -423,14 +427,200 @@ func runC01(c *core.Ctx) {
 		}
 	}
 	c.Count("sequences", idx)
+	c01FamilyPB(c, idx)
+}
+
+// ---- family 3: CID forms. A dag-pb DAG linked by CIDv0; the adversary announces
+// each link as itself, as its CIDv1 twin (same digest), or as a decoy dag-pb
+// block in either CID version, with or without the block keyed by that CID.
+
+type pbMove struct {
+	Link  string `json:"link"`  // own0 own1 decoy0 decoy1
+	Block bool   `json:"block"` // the block whose bytes hash to that CID travels along
+	Act   string `json:"action"`
+}
+
+type c01PBCase struct {
+	PB    bool     `json:"dag_pb"`
+	Moves []pbMove `json:"moves"`
+}
+
+func (c c01PBCase) String() string {
+	var p []string
+	for i, m := range c.Moves {
+		p = append(p, fmt.Sprintf("step %d: announce %s (%s, block=%v)", i+1, m.Link, m.Act, m.Block))
+	}
+	return "dag-pb DAG linked by CIDv0; adversary: " + strings.Join(p, "; ")
+}
+
+type pbWorld struct {
+	data map[string][]byte // name -> bytes
+	c0   map[string]cid.Cid
+	c1   map[string]cid.Cid
+}
+
+func pbBuild() pbWorld {
+	w := pbWorld{data: map[string][]byte{}, c0: map[string]cid.Cid{}, c1: map[string]cid.Cid{}}
+	mk := func(name string, data string, links ...cid.Cid) {
+		nd, err := qp.BuildMap(dagpb.Type.PBNode, 2, func(ma datamodel.MapAssembler) {
+			qp.MapEntry(ma, "Links", qp.List(int64(len(links)), func(la datamodel.ListAssembler) {
+				for _, l := range links {
+					qp.ListEntry(la, qp.Map(1, func(ma2 datamodel.MapAssembler) {
+						qp.MapEntry(ma2, "Hash", qp.Link(cidlink.Link{Cid: l}))
+					}))
+				}
+			}))
+			qp.MapEntry(ma, "Data", qp.Bytes([]byte(data)))
+		})
+		if err != nil {
+			panic(err)
+		}
+		var buf bytes.Buffer
+		if err := dagpb.Encode(nd, &buf); err != nil {
+			panic(err)
+		}
+		w.data[name] = buf.Bytes()
+		c0, _ := cid.Prefix{Version: 0, Codec: cid.DagProtobuf, MhType: 0x12, MhLength: 32}.Sum(buf.Bytes())
+		w.c0[name] = c0
+		w.c1[name] = cid.NewCidV1(cid.DagProtobuf, c0.Hash())
+	}
+	mk("leaf", "leaf data")
+	mk("decoy", "decoy data")
+	mk("root", "root data", w.c0["leaf"])
+	return w
+}
+
+func c01RunPB(cs c01PBCase) (*c01Obs, pbWorld) {
+	o := &c01Obs{store: map[string][]byte{}, initial: map[string]bool{}}
+	w := pbBuild()
+	s := vsched.Run(vsched.Config{Fast: true}, func() {
+		f := harness.NewFixture(true)
+		qs := harness.NewStore()
+		q := f.AddNode(peer.ID("Q"), qs)
+		f.AddScript(peer.ID("S"))
+		id := harness.MkID(1)
+		res := q.Request(f, peer.ID("S"), cidlink.Link{Cid: w.c0["root"]}, harness.RecAll(10), id)
+		vsched.Quiesce()
+		expected := []string{"root", "leaf"}
+		for i, m := range cs.Moves {
+			name := expected[min(i, 1)]
+			if strings.HasPrefix(m.Link, "decoy") {
+				name = "decoy"
+			}
+			c := w.c0[name]
+			if strings.HasSuffix(m.Link, "1") {
+				c = w.c1[name]
+			}
+			bl := map[cid.Cid]blocks.Block{}
+			if m.Block {
+				b, _ := blocks.NewBlockWithCid(w.data[name], c)
+				bl[c] = b
+			}
+			rsp := gsmsg.NewResponse(id, graphsync.PartialResponse, []gsmsg.GraphSyncLinkMetadatum{{Link: c, Action: c01Actions[m.Act]}})
+			f.Net.Node(q.ID).Inject(peer.ID("S"), gsmsg.NewMessage(nil, map[graphsync.RequestID]gsmsg.GraphSyncResponse{id: rsp}, bl))
+			vsched.Quiesce()
+		}
+		o.visits[0] = res.Visits
+		o.closed[0] = res.Closed()
+		for k, v := range qs.M {
+			o.store[k] = v
+		}
+		f.Cancel()
+	})
+	if s.Panic != nil {
+		o.panicked = fmt.Sprint(s.Panic) + " | " + firstLines(s.PanicStack, 6)
+	}
+	return o, w
+}
+
+func c01JudgePB(cs c01PBCase, o *c01Obs, w pbWorld) (sig, what string) {
+	if o.panicked != "" {
+		return "panic", o.panicked
+	}
+	reach := map[string]string{cidlink.Link{Cid: w.c0["root"]}.Binary(): "root", cidlink.Link{Cid: w.c0["leaf"]}.Binary(): "leaf"}
+	for k, data := range o.store {
+		c, err := cid.Cast([]byte(k))
+		if err != nil {
+			return "store-key-not-a-cid", fmt.Sprintf("%x", k)
+		}
+		sum, err := c.Prefix().Sum(data)
+		if err != nil || !sum.Equals(c) {
+			what := "other bytes"
+			for n, d := range w.data {
+				if bytes.Equal(d, data) {
+					what = "the bytes of the " + n + " block"
+				}
+			}
+			return "block-stored-under-a-cid-it-does-not-hash-to", fmt.Sprintf("the store holds %s under %s (the %s link), which they do not hash to", what, c, reach[k])
+		}
+		if _, ok := reach[k]; !ok {
+			return "unreachable-block-stored", fmt.Sprintf("the requestor stored a block under %s, which is not a link of the requested DAG", c)
+		}
+	}
+	for _, v := range o.visits[0] {
+		if strings.Contains(v.Node, "decoy") {
+			return "forged-or-unreachable-node-delivered", fmt.Sprintf("node %q at path %q comes from the decoy block", v.Node, v.Path)
+		}
+	}
+	return "", ""
+}
+
+func c01FamilyPB(c *core.Ctx, base int64) {
+	var opts []pbMove
+	for _, l := range []string{"own0", "own1", "decoy0", "decoy1"} {
+		for _, b := range []bool{false, true} {
+			opts = append(opts, pbMove{Link: l, Block: b, Act: "P"})
+		}
+		opts = append(opts, pbMove{Link: l, Act: "M"}, pbMove{Link: l, Act: "D"})
+	}
+	idx := base
+	for _, m1 := range opts {
+		for _, m2 := range append([]pbMove{{}}, opts...) {
+			for _, m3 := range append([]pbMove{{}}, opts...) {
+				if m2.Link == "" && m3.Link != "" {
+					continue
+				}
+				idx++
+				if !c.Mine(idx) {
+					continue
+				}
+				cs := c01PBCase{PB: true, Moves: []pbMove{m1}}
+				if m2.Link != "" {
+					cs.Moves = append(cs.Moves, m2)
+				}
+				if m3.Link != "" {
+					cs.Moves = append(cs.Moves, m3)
+				}
+				o, w := c01RunPB(cs)
+				sig, what := c01JudgePB(cs, o, w)
+				c.Res.Evaluations++
+				c.Res.Traces++
+				c.Res.States++
+				c.Res.Transitions += int64(len(cs.Moves))
+				c.Class(fmt.Sprintf("dag-pb delivered=%d stored=%d", min(len(o.visits[0]), 6), len(o.store)))
+				if sig != "" {
+					c.Violate(sig+"/cid-forms", cs.String()+": "+what, cs)
+				}
+			}
+		}
+	}
 }
 
 func init() {
 	core.Register(&core.Prop{ID: "C01", Level: "model_checking",
-		Rule:        "a real requestor (store empty or holding block 1; thorough also block 0 / blocks 0,2) asks an adversarial scripted responder for a 3-block DAG (root -> b1 by field, root -> b2 by an inline map) under two selectors (everything; only the e0 branch, so b2 is in the DAG but unreachable). Family 1: every sequence of <= 3 adversarial metadata moves, each = link in {b0,b1,b2, a decoy valid block outside the DAG} x action in {Present, Missing, DuplicateNotSent, DuplicateDAGSkipped} x block data {absent, the true bytes of that link (block CIDs are recomputed from bytes on decode, so nothing else can be keyed by it)} (+ an unrelated extra block with the first move), each move in its own message or all in one, with or without a final complete-full status. Family 2: the first request is answered honestly and ends, a late message for it follows, then a second request over another DAG receives every sequence of <= 2 moves. A class is (nodes delivered, blocks stored, closed, second request issued)",
+		Rule:        "a real requestor (store empty or holding block 1; thorough also block 0 / blocks 0,2) asks an adversarial scripted responder for a 3-block DAG (root -> b1 by field, root -> b2 by an inline map) under two selectors (everything; only the e0 branch, so b2 is in the DAG but unreachable). Family 1: every sequence of <= 3 adversarial metadata moves, each = link in {b0,b1,b2, a decoy valid block outside the DAG} x action in {Present, Missing, DuplicateNotSent, DuplicateDAGSkipped} x block data {absent, the true bytes of that link (block CIDs are recomputed from bytes on decode, so nothing else can be keyed by it)} (+ an unrelated extra block with the first move), each move in its own message or all in one, with or without a final complete-full status. Family 2: the first request is answered honestly and ends, a late message for it follows, then a second request over another DAG receives every sequence of <= 2 moves. Family 3: a dag-pb DAG linked by CIDv0; every sequence of <= 3 moves announcing each link as itself, as its CIDv1 twin, or as a decoy dag-pb block in either CID version, with or without the matching block. A class is (nodes delivered, blocks stored, closed, second request issued)",
 		Assumptions: []string{"reference: the selector traversal of the true DAG with every block available gives the set and order of legitimate (path, node) deliveries and the set of selector-reachable links", "default schedule; quiescence after every adversarial message"},
 		Run:         runC01, QuickBudget: 300, ThoroughBudget: 2400,
 		Replay: func(raw json.RawMessage) string {
+			var pb c01PBCase
+			if json.Unmarshal(raw, &pb) == nil && pb.PB {
+				o, w := c01RunPB(pb)
+				sig, what := c01JudgePB(pb, o, w)
+				if sig == "" {
+					return "ok"
+				}
+				return sig + ": " + what
+			}
 			var cs c01Case
 			if err := json.Unmarshal(raw, &cs); err != nil {
 				return err.Error()
